@@ -157,7 +157,14 @@ partial def loop (h : IO.FS.Stream) (out : IO.FS.Stream) (s : State) : IO Unit :
     loop h out s
   else
     match parseOp l with
-    | none => out.putStrLn "unparsed"; out.flush; loop h out s
+    | none =>
+      match l.splitOn " " with
+      | ["cmp", a, b] =>
+        -- read-only: not a `step` (Model/Ops.lean, "comparison, hashing and formatting through handles")
+        match a.toNat?, b.toNat? with
+        | some a, some b => out.putStrLn (obsLine s s (cmpAnswer s a b)); out.flush; loop h out s
+        | _, _ => out.putStrLn "unparsed"; out.flush; loop h out s
+      | _ => out.putStrLn "unparsed"; out.flush; loop h out s
     | some op =>
       let (s', o) := step s op
       out.putStrLn (obsLine s s' o)
